@@ -49,7 +49,8 @@ INVALID = ["points-wrong-shape", "points-object-dtype", "charges-wrong-length", 
            "esp-non-numeric-coords", "esp-negative-threshold", "esp-gamma-wrong-size", "eri-bad-notation", "deriv-bad-type",
            "deriv-negative-order", "deriv-float-order", "density-nonsymmetric", "density-wrong-size", "moment-float-orders",
            "overlap-bool-tol", "overlap-string-tol", "overlap-negative-tol", "make_contractions-short-list", "make_contractions-bad-string", "stress-bad-alpha",
-           "basis-not-a-list", "transform-wrong-shape", "shell-bad-coord-type", "parse-missing-file"]
+           "basis-not-a-list", "transform-wrong-shape", "shell-bad-coord-type", "parse-missing-file", "shell-exps-wrong-length",
+           "shell-coeffs-wrong-rows", "shell-coeffs-wrong-rows-1d"]
 ERR = ["ignore", "warn", "raise"]
 NWCHEM = 'BASIS "ao basis" PRINT\nH    S\n      3.42525091         0.15432897\n      0.62391373         0.53532814\nH    SP\n      1.5   0.3  0.4\n      0.4   0.7  0.6\nEND\n'
 GBS = "****\nH     0\nS   2   1.00\n      0.3425250914D+01       0.1543289673D+00\n      0.6239137298D+00       0.5353281423D+00\n****\n"
@@ -232,6 +233,16 @@ class World:
             return overlap_integral(b[0])
         if kind == "transform-wrong-shape":
             return overlap_integral(b, transform=np.ones((2, self.n + 3)))
+        if kind == "shell-exps-wrong-length":
+            # a refused update must leave the shell as it was
+            b[0].exps = np.concatenate([b[0].exps, [0.77]])
+            return None
+        if kind == "shell-coeffs-wrong-rows":
+            b[0].coeffs = np.concatenate([b[0].coeffs, b[0].coeffs[:1]], axis=0)
+            return None
+        if kind == "shell-coeffs-wrong-rows-1d":
+            b[-1].coeffs = np.ones(b[-1].exps.size + 2)
+            return None
         if kind == "shell-bad-coord-type":
             return GeneralizedContractionShell(b[0].angmom, b[0].coord, b[0].coeffs, b[0].exps, "polar")
         if kind == "parse-missing-file":
